@@ -25,7 +25,7 @@ YOUR TASK: produce ONE realistic change (a plausible bug a developer could intro
  (c) the breakage needs something SPECIFIC to manifest - a particular input value or length class, a multi-step sequence of operations, a particular interleaving, a fault at a particular point, an unusual configuration, or two cooperating sites - NOT something that ordinary use of the API would expose at once (a change that breaks every call is useless).
 Do not change test files. Do not add build tags. Keep the change small (ideally < 30 changed lines) and confined to non-test .go files of the library. Do not make changes whose only effect is a crash/compile problem unrelated to the property.
 {extra}
-Then write a DEMONSTRATION: a Go test file (put it where it compiles, e.g. as an extra _test.go file in the relevant package or an external test package) that FAILS with your change applied and PASSES on the unchanged library (git stash / git diff to switch). Confirm both outcomes by actually running it, and confirm the full existing suite passes with your change applied (without the demonstration file present if it would interfere).
+Then write a DEMONSTRATION: a Go test file (put it where it compiles, e.g. as an extra _test.go file in the relevant package or an external test package) that FAILS with your change applied and PASSES on the unchanged library (switch with `git diff > /tmp/seed/NAME.p; git apply -R /tmp/seed/NAME.p` and `git apply /tmp/seed/NAME.p`; NEVER use `git stash`: it is shared between worktrees). Confirm both outcomes by actually running it, and confirm the full existing suite passes with your change applied (without the demonstration file present if it would interfere).
 
 Deliver in /tmp/seed/{wt.split('/')[-1]}/ :
   patch.diff   - output of `git -C {wt} diff` for the library change ONLY (no test/demo files), applicable with `git apply` from the repository root
